@@ -64,6 +64,7 @@ type fwdObs struct {
 	ParseErr string   `json:"parse_err"`
 	WellForm bool     `json:"wellformed"` // NoCtl and every field name is a token
 	NoCtl    bool     `json:"noctl"`      // request line of 3 parts; no CR/LF/NUL/DEL inside the request line or a header line
+	Strict   [][]string `json:"strict"` // second, strict reading of the first header block: lines split at CRLF, bare CR and bare LF
 	Raw      string   `json:"raw"`
 	Panic    string   `json:"panic,omitempty"`
 }
@@ -110,6 +111,29 @@ func lexHeaderBlock(raw []byte) (fields [][]string, well, noctl bool) {
 	return fields, well, noctl
 }
 
+// strictFields reads the header block the way a parser that takes a bare CR or a bare LF for a line
+// end would: every piece that looks like "name: value" is a field.
+func strictFields(raw []byte) [][]string {
+	end := bytes.Index(raw, []byte("\r\n\r\n"))
+	if end < 0 {
+		end = len(raw)
+	}
+	pieces := strings.FieldsFunc(string(raw[:end]), func(r rune) bool { return r == '\r' || r == '\n' })
+	var out [][]string
+	for i, ln := range pieces {
+		if i == 0 {
+			continue
+		}
+		k := strings.IndexByte(ln, ':')
+		if k <= 0 {
+			out = append(out, []string{ln, ""})
+			continue
+		}
+		out = append(out, []string{ln[:k], strings.Trim(ln[k+1:], " \t")})
+	}
+	return out
+}
+
 func analyseBackend(raws [][]byte, o *fwdObs) {
 	var all []byte
 	for _, r := range raws {
@@ -126,6 +150,9 @@ func analyseBackend(raws [][]byte, o *fwdObs) {
 		}
 		br := bufio.NewReader(bytes.NewReader(raw))
 		first := true
+		if o.Strict == nil {
+			o.Strict = strictFields(raw)
+		}
 		lexed, well, noctl := lexHeaderBlock(raw)
 		if !well {
 			o.WellForm = false
